@@ -34,7 +34,7 @@ Proof. exact depth_single_leaf. Qed.
 Print Assumptions C10_leaf_depth.
 
 From WaxModel Require Import Rule Parse Query Glob.
-From WaxProofs Require Import SpecFacts ExhaustFacts PruneFacts DepthTreeFacts DepthAltFacts BuiltDepth.
+From WaxProofs Require Import SpecFacts ExhaustFacts PruneFacts DepthTreeFacts DepthAltFacts DepthRepFacts BuiltDepth.
 
 (* flat patterns that contain tree wildcards (`src/**/*.rs`, `**/a/*`, `/usr/**`): the reported depth has no upper bound and its
    lower bound is at most the number of components of every canonical path of the documented language; the conjunction fold
@@ -105,4 +105,50 @@ Example C10_alternation_nonvacuous :
                     TAlt sp [TCat sp [L [114%N]]; TCat sp [L [109%N]; TLeaf sp LSep; L [100%N]]]] in
   nonempty_branches t = true /\ rep_free t = true /\ lits_nosep t = true /\ depth_closed_variant t = false /\
   depth_variance t = Ok (Var (Bounded (BLower 2))).
+Proof. cbv zeta. repeat split; vm_compute; reflexivity. Qed.
+
+(* with repetitions that are written out at least once and whose body has a single depth term (`<a/:1,>b`, `<[0-9]:1,3>.txt`,
+   `src/<*/:1,2>*.rs`): the summary is generalised from exact counts to ranges - the separator count of a tree-free sequence lies
+   in the variance of its term, a sequence with a tree wildcard has a term without upper bound - and is preserved by the product
+   with the repetition range (C10_product_sound) as well as by conjunction (C10_conjunction_sound) *)
+Theorem C10_patterns_with_simple_repetitions_sound : forall (orbit : char -> list char), (forall c d, In d (orbit c) -> d <> SEP) ->
+  forall t v p x,
+  nonempty_branches t = true -> simple_reps t = true -> lits_nosep t = true ->
+  depth_variance t = Ok v -> depth_closed_variant t = false ->
+  Expands t x -> FlatMatch orbit true true x p -> chain_ok false x = true ->
+  canonical p = true -> 1 <= ncomp p ->
+  starts_sep p = (match x with a :: _ => leaf_is_rooting a | [] => false end) ->
+  in_variance (ncomp p) v.
+Proof. exact depth_rep_sound. Qed.
+Print Assumptions C10_patterns_with_simple_repetitions_sound.
+
+Theorem C10_built_globs_with_simple_repetitions_sound : forall (orbit : char -> list char), (forall c d, In d (orbit c) -> d <> SEP) ->
+  forall e t r v p x,
+  build e = BuildOk t r -> simple_reps t = true ->
+  depth_variance t = Ok v -> depth_closed_variant t = false ->
+  Expands t x -> FlatMatch orbit true true x p -> chain_ok false x = true ->
+  canonical p = true -> 1 <= ncomp p ->
+  starts_sep p = (match x with a :: _ => leaf_is_rooting a | [] => false end) ->
+  in_variance (ncomp p) v.
+Proof. exact built_rep_depth_sound. Qed.
+Print Assumptions C10_built_globs_with_simple_repetitions_sound.
+
+Theorem C10_conjunction_sound : forall a b c, nvar_conj a b = Ok c ->
+  (forall x y, in_variance x a -> in_variance y b -> in_variance (x + y) c) /\ lowN c <= lowN a + lowN b /\ (upN a = None \/ upN b = None -> upN c = None).
+Proof. exact conj_sound. Qed.
+Print Assumptions C10_conjunction_sound.
+
+Theorem C10_product_sound : forall v r c, nvar_product v r = Ok c ->
+  (forall l, Forall (fun a => in_variance a v) l -> in_variance (N.of_nat (length l)) r -> in_variance (sumN l) c) /\ lowN c <= lowN v * lowN r /\ (upN v = None -> 1 <= lowN r -> upN c = None).
+Proof. exact product_sound. Qed.
+Print Assumptions C10_product_sound.
+
+(* the premises are satisfiable: s/<*/:1,2>*.{r,m} reports "between 3 and 4" *)
+Example C10_repetition_nonvacuous :
+  let sp := (0%N, 0%N) in
+  let L s := TLeaf sp (LLit false s) in
+  let t := TCat sp [L [115%N]; TLeaf sp LSep; TRep sp (TCat sp [TLeaf sp (LZom false); TLeaf sp LSep]) 1 (Some 2); TLeaf sp (LZom false); L [46%N];
+                    TAlt sp [TCat sp [L [114%N]]; TCat sp [L [109%N]]]] in
+  nonempty_branches t = true /\ simple_reps t = true /\ lits_nosep t = true /\ depth_closed_variant t = false /\
+  depth_variance t = Ok (Var (Bounded (BBoth 3 1))).
 Proof. cbv zeta. repeat split; vm_compute; reflexivity. Qed.
